@@ -213,7 +213,8 @@ func init() {
 			w.signaled = true
 		}
 		c.waiters = nil
-		i.S.yield(yCond, c)
+		// not a scheduling point: waiters cannot proceed before the caller
+		// releases the associated lock, which is one
 		return nil
 	}
 	externals["(*sync.Cond).Signal"] = func(fr *frame, args []value) value {
